@@ -7,13 +7,20 @@
     format's definition for every chunking; round trip.
 (G) GenBcj: TLC evaluates the reference transforms on inputs built from opcode-pattern classes (per architecture,
     several start offsets incl. the 32-bit wrap, instructions on and off the scan grid, hand-made x86 E8/E9 pairs at
-    distances 0..6 x MS bytes), delta distances/lengths, start_offset alignment and delta option validation.
+    distances 0..6 x MS bytes), delta distances/lengths, start_offset alignment and delta option validation, and
+    coder-REUSE sessions: three jobs back to back on one coder object, state threaded through ScReinit/DeltaReinit
+    (= Init: "a re-initialised filter equals a fresh one"; MCBcj/MCDelta have the Reinit action at every state), the
+    first job sometimes abandoned mid-stream, offsets unrelated or continuing where the previous job ended.
     GenSimple: TLC simulates call sequences of the SimpleCoder machine and prints every call's predicted
     (input consumed, bytes written, return value).
 (R) harness/cdrv/c15_drv.c replays everything into the real filters: the lone coder reached through the internal
     next-coder interface (public API forbids a BCJ/delta filter as the last one) under many slicings (whole, byte
     by byte on either side, every two-piece split, pseudo-random), the exact call plans, the public one-shot
     lzma_bcj_{x86,arm64,riscv}_{encode,decode}, and public chains [filter, LZMA2] via lzma_raw_buffer_encode/decode.
+    Reuse sessions run on: the same lzma_next_coder initialised again (no free), the same lzma_stream given
+    lzma_raw_encoder/lzma_raw_decoder again, one .xz Stream with a Block per job (LZMA_FULL_FLUSH + lzma_filters_update;
+    each Block's payload with only LZMA2 undone must equal the fresh-state bytes), concatenated Streams through one
+    LZMA_CONCATENATED decoder.
 (V) tests/files good-1-arm64-lzma2-{1,2}.xz, good-1-delta-lzma2.tiff.xz, good-1-3delta-lzma2.xz (written by other
     versions): the payload with only the first filter still applied is decoded by the TLA+ reference (VFilterFiles)
     and must equal the content attested by the file's own Check.  A released liblzma found on the system is a further
